@@ -1,6 +1,6 @@
 //! Command line front end shared by all rig binaries: `<rig> <monitor> [--key value]...`.
 
-use crate::rig::Rig;
+use crate::rig::ParRig;
 use crate::seq;
 use std::collections::BTreeMap;
 
@@ -37,7 +37,7 @@ pub fn write_out(path: &str, text: &str) {
     }
 }
 
-pub fn main<G: Rig>() {
+pub fn main<G: ParRig>() {
     // Everything the harness itself allocates is untracked; monitors switch tracking on around the
     // windows they measure.
     crate::alloc::untracked(|| {
@@ -63,7 +63,7 @@ pub fn main<G: Rig>() {
     })
 }
 
-fn seq_main<G: Rig>(args: &Args) {
+fn seq_main<G: ParRig>(args: &Args) {
     let out = args.str("out", "-");
     if let Some(path) = args.kv.get("replay") {
         let text = std::fs::read_to_string(path).expect("read replay");
@@ -146,7 +146,7 @@ fn seq_main<G: Rig>(args: &Args) {
     write_out(&out, &serde_json::to_string(&rep).unwrap());
 }
 
-fn trace_history<G: Rig>(hseed: u64, profile: &seq::Profile, nops: usize) {
+fn trace_history<G: ParRig>(hseed: u64, profile: &seq::Profile, nops: usize) {
     use std::io::Write;
     let mut h = seq::Hist::<G>::new(hseed, profile.clone());
     for i in 0..nops {
